@@ -26,6 +26,7 @@ import ast
 from ..astutil import calls, dotted, kwarg, method_call, norm, walk
 from ..cfg import build_cfg
 from ..flow import Defs, _Sel, origins
+from ..paths import normal_only
 from ..report import Check
 from ..strdom import TOP, BoolV, Interp, IntV, NoneV, ObjV, StrV, TupleV, lit
 
@@ -220,6 +221,36 @@ def rule_n4(chk: Check) -> None:
     chk.ob("N4", f"{up.key}: scheme exchanged by prefix only", ok, evals=len(seen) + 1)
 
 
+def rule_n5(chk: Check) -> None:
+    """The size limit is applied to what goes on the wire.  Normalisation can
+    lengthen a URL (an empty path becomes "/"), so checking only the caller's
+    spelling lets the client send a request line the server must refuse."""
+    chk.rule("N5", "the string the client sends as the request line (parsed.normalized) has itself passed the size check: validate_url(<that string>) dominates the protocol construction")
+    gs = chk.proj.func("client.session:GeminiClient._get_single")
+    g = build_cfg(chk.proj, gs)
+    ctor = None
+    for n in g.nodes:
+        if n.ast is None or n.kind not in ("stmt", "with"):
+            continue
+        for c in calls(n.ast if not isinstance(n.ast, ast.withitem) else n.ast.context_expr):
+            if (dotted(c.func) or "").split(".")[-1] == "GeminiClientProtocol" and c.args:
+                ctor = (n, c)
+    if not chk.require("N5", gs.key, "client protocol construction", 1 if ctor else 0, 1, "the fetch no longer builds the client protocol with the request line"):
+        return
+    node, call = ctor
+    wire = norm(call.args[0])
+    checks = {x.id for x in g.nodes if x.ast is not None and x.kind == "stmt" and any((dotted(c.func) or "").split(".")[-1] == "validate_url" and c.args and norm(c.args[0]) == wire for c in calls(x.ast))}
+    par = g.reach([g.entry.id], blocked_nodes=checks, follow=normal_only)
+    ok = bool(checks) and node.id not in par
+    if not ok:
+        chk.finding(
+            "N5", gs.key, f"wire-not-size-checked:{wire}",
+            f"the request line sent is `{wire}`, but only the caller's spelling of the URL is size-checked: normalisation can add a byte (an empty path becomes '/'), so a URL of exactly the maximum length that the library accepts is sent as a request line one byte too long and the server answers 59",
+            node.where(),
+        )
+    chk.ob("N5", f"{gs.key}: `{wire}` is size-checked before it is sent", ok)
+
+
 def wire_fidelity(chk: Check, rule: str, what: str) -> None:
     """N1-N3 reported under another property's rule id: the URL a component is
     handed (middleware, upstream, TOFU key) has the components the caller asked
@@ -240,5 +271,6 @@ def run(chk: Check) -> None:
     rule_n1_n2(chk)
     rule_n3(chk)
     rule_n4(chk)
+    rule_n5(chk)
     chk.trusted = ["CPython ast parser", "engine abstract evaluator", "urllib.parse: .hostname is lower-cased and unbracketed, urlunparse joins the six components"]
     chk.assumptions = ["idempotence / meaning preservation over all URLs is not decided; only the listed component samples are evaluated abstractly"]
